@@ -132,6 +132,21 @@ def run(ctx):
                 pat, raised = None, "MachineReadableFormatError"
             except Exception as e:
                 pat, raised = None, repr(e)
+            # the same patterns handed over as a tuple / as a one-shot iterator (the parameter is any iterable of str)
+            for given_as, mk in (("tuple", lambda: tuple(texts)), ("iterator", lambda: iter(texts)), ("generator", lambda: (x for x in texts))):
+                try:
+                    other = real.globs_to_re(mk())
+                    oraised = None
+                except real.MachineReadableFormatError:
+                    other, oraised = None, "MachineReadableFormatError"
+                except Exception as e:
+                    other, oraised = None, repr(e)
+                if oraised != raised or (other is not None and (other.pattern, other.flags) != (pat.pattern, pat.flags)):
+                    ctx.direct("R-16a %r given as %s is translated like the list" % (texts, given_as), fq_g, False, "cpython",
+                               detail="globs_to_re(%s of the patterns) gives %r / %r, the list gives %r / %r"
+                                      % (given_as, other.pattern if other else None, oraised, pat.pattern if pat else None, raised),
+                               inputs={"globs": texts, "given_as": given_as}, confirmed=True, kind="input-form")
+                    break
             name = "R-16a %r" % (texts,)
             if not legal:
                 n_err += 1
@@ -250,7 +265,24 @@ def bounded(ctx, real, rng):
             ops.append(["parsed", text])
         del pending[:]
         for step in range(rng.randint(2, 7)):
-            op = "query" if pending else rng.choice(["addf", "addf", "addl", "query", "query", "setfiles"])
+            op = "query" if pending else rng.choice(["addf", "addf", "addl", "query", "query", "setfiles", "copy"])
+            if op == "copy" and objs:
+                # a copy of the document (shallow or deep) answers like the document it was copied from
+                import copy as _copy
+                how = rng.choice(["copy.copy", "copy.deepcopy"])
+                ops.append([how + " of the document; the copy is used from here on"])
+                try:
+                    c2 = getattr(_copy, how.split(".")[1])(c)
+                    objs2 = list(c2.all_paragraphs())[1:] if how.endswith("deepcopy") else objs
+                    if len(objs2) != len(objs):
+                        raise AssertionError("the copy has %d paragraphs, the original %d" % (len(objs2), len(objs)))
+                except Exception as e:
+                    fail = dict(what="copying a document raised %r" % (e,), operations=ops)
+                    break
+                c, objs = c2, objs2
+                continue
+            elif op == "copy":
+                continue
             if op == "addf":
                 gs = pick_globs()
                 fp = real.FilesParagraph.create(list(gs), "c", real.License("L"))
